@@ -36,7 +36,9 @@ QUERIES = [["set_mathml", X.math(BODY)], ["get_spoken_text"], ["get_braille", ""
 
 
 def copy_path(n):
-    return os.path.join(SCRATCH, "r%d" % n)
+    # the copy is a directory NAMED Rules: find_file walks from the language directory towards the root and stops only at
+    # a directory of that name (under any other name it goes on into the parents of the rules directory: outside the model)
+    return os.path.join(SCRATCH, "r%d" % n, "Rules")
 
 
 def private_copy(n):
@@ -182,7 +184,7 @@ SLEEP = ["h_sleep", 12]          # modification times have the granularity of a 
 class Hist:
     def __init__(self, d, rng):
         self.d, self.rng = d, rng
-        self.n = int(os.path.basename(d)[1:])
+        self.n = int(os.path.basename(os.path.dirname(d))[1:])
         self.ops = []
         self.epoch = 1
         self.stamp = {}                # path -> epoch of the last modification (absent: 1; 0: no such file)
@@ -455,6 +457,10 @@ def execute(hists, batch=160):
     return out
 
 
+ITEM_NAMES = []
+LOCATED_NAMES = []
+
+
 def tie_items(hists, out):
     """per session and cache: (guard, [obs_call], [observed reload flags]) as Coq text"""
     items, kinds = [], {}
@@ -496,6 +502,7 @@ def tie_items(hists, out):
             kinds[kind] = kinds.get(kind, 0) + len(seq)
             items.append("(%s, [%s], [%s], [%s])" % ("true" if guard else "false", "; ".join(calls),
                                                    "; ".join("true" if x[4] else "false" for x in seq), "; ".join(recorded)))
+            ITEM_NAMES.append("%s / %s" % (name, kind))
     return items, kinds
 
 
@@ -541,6 +548,7 @@ def located_items(hists, out):
                 paths.append(cpath(rel.split(os.sep)) if f and not rel.startswith("..") else cpath(["<outside>"]))
             private = os.path.realpath(h.d) == root
             items.append("(%s, [%s], [%s])" % ("true" if private else "false", "; ".join(cpath(m.split(os.sep)) for m in missing) if private else "", "; ".join(paths)))
+            LOCATED_NAMES.append("%s / missing %r / located %r" % (name, missing, {k_: os.path.relpath(v_, root) for k_, v_ in files.items()}))
     return items
 
 
@@ -714,6 +722,15 @@ def run(res):
     hists, out = generate(res)
 
     def on_broken(log):
+        m = re.findall(r"=\s*\[([^\]]*)\]\s*:\s*list N", log)
+        if m:
+            idx = [int(x.replace("%N", "")) for x in m[0].replace("\n", " ").split(";") if x.strip()]
+            res.extra["tie_disagreements"] = [ITEM_NAMES[i] for i in idx[:12] if i < len(ITEM_NAMES)]
+            C.log("  tie disagreements: %r" % res.extra["tie_disagreements"])
+        if len(m) > 1:
+            idx = [int(x.replace("%N", "")) for x in m[1].replace("\n", " ").split(";") if x.strip()]
+            res.extra["located_disagreements"] = [LOCATED_NAMES[i] for i in idx[:6] if i < len(LOCATED_NAMES)]
+            C.log("  located-files disagreements: %r" % res.extra["located_disagreements"])
         return oracle(res, hists, out) > 0
     proved = C.check_proofs(res, "C14", ["Props/C14.vo", "Tie/C14Tie.vo"], "Props/C14.v", search=on_broken)
     if proved:
